@@ -203,6 +203,43 @@ Theorem v2_switch_fields_match_methods v s : v2_slot v = Some s -> slot_verb s =
 Proof. exact (v2_sound v s). Qed.
 Print Assumptions v2_switch_fields_match_methods.
 
+(* ---- OpenAPI 2: basePath and path keys ---- *)
+
+(* openapi.json writes a basePath (the API base path, or nothing as soon as a documented
+   route is absolute or a file server is documented) and path keys with that prefix
+   removed. For every design whose non-absolute routes start with the API base path, each
+   key resolved against basePath is the path template of the operation, i.e. (by
+   doc2_ops_subset_server_ops) a path the server mounts *)
+Theorem doc2_paths_resolve_partial d : rooted d -> forall o, In o (doc2_ops d) ->
+  v2_resolve (norm (v2_base d)) (v2_key (norm (v2_base d)) (opath o)) = opath o.
+Proof. exact (doc2_resolve d). Qed.
+Print Assumptions doc2_paths_resolve_partial.
+
+(* hence the document as a reader resolves it is the document on full paths, about which
+   every OpenAPI 2 theorem above speaks *)
+Theorem doc2_resolved_is_doc2_ops_partial d : rooted d -> doc2_resolved d (doc2_ops d) = doc2_ops d.
+Proof. exact (doc2_resolved_id d). Qed.
+Print Assumptions doc2_resolved_is_doc2_ops_partial.
+
+Theorem doc2_keys_full_when_base_dropped d k : has_abs d || has_files d = true -> v2_key (norm (v2_base d)) k = k.
+Proof. exact (doc2_full_keys d k). Qed.
+Print Assumptions doc2_keys_full_when_base_dropped.
+
+(* the string operation behind it: a prefix that is removed and put back *)
+Theorem v2_key_resolves bp k : trivial_base bp = true \/ is_prefix bp k = true -> v2_resolve bp (v2_key bp k) = k.
+Proof. exact (v2_resolve_key bp k). Qed.
+Print Assumptions v2_key_resolves.
+
+(* finding: a service whose own path is absolute (Path("//abs")) under an API base path:
+   no route is absolute, basePath is kept, the key is written in full; the document
+   resolves to a path the server does not mount *)
+Theorem doc2_paths_absolute_service_refuted :
+  exists d o, has_abs d = false /\ has_files d = false /\ In o (doc2_ops d) /\ In o (server_ops d) /\
+    v2_resolve (norm (v2_base d)) (v2_key (norm (v2_base d)) (opath o)) <> opath o /\
+    ~ In (overb o, v2_resolve (norm (v2_base d)) (v2_key (norm (v2_base d)) (opath o))) (map nkey (server_ops d)).
+Proof. exact svcabs_refuted_l. Qed.
+Print Assumptions doc2_paths_absolute_service_refuted.
+
 (* ---- openapi:generate=false ---- *)
 
 (* A design whose services, endpoints and file servers may be marked with
@@ -264,3 +301,9 @@ Example marked_endpoint_left_out :
   In (POST, [Lit 2]) (map nkey (server_ops (hidden w_marked))) /\
   In (GET, [Lit 1]) (map okey (doc3_ops (visible w_marked))).
 Proof. exact marked_example. Qed.
+
+Example based_design_keys :
+  rooted w_based /\ norm (v2_base w_based) = [Lit 9] /\
+  doc2_written w_based (doc2_ops w_based) = [(GET, [Lit 7]); (POST, [Lit 8; Var 3])] /\
+  map (fun vk => v2_resolve [Lit 9] (snd vk)) (doc2_written w_based (doc2_ops w_based)) = map opath (doc2_ops w_based).
+Proof. exact based_example. Qed.
